@@ -20,8 +20,11 @@ mod mon_c08;
 mod mon_c09;
 mod mon_c10;
 mod mon_c11;
+mod mon_c12;
 mod mon_c14;
 mod mon_c16;
+mod mon_c17;
+mod mon_c18;
 mod mon_struct;
 mod pins;
 mod reduce;
@@ -44,9 +47,12 @@ fn monitor(id: &str) -> Option<Box<dyn Monitor>> {
         "C09" => Some(Box::new(mon_c09::C09)),
         "C10" => Some(Box::new(mon_c10::C10)),
         "C11" => Some(Box::new(mon_c11::C11)),
+        "C12" => Some(Box::new(mon_c12::C12)),
         "C13" => Some(Box::new(mon_struct::C13)),
         "C14" => Some(Box::new(mon_c14::C14)),
         "C16" => Some(Box::new(mon_c16::C16)),
+        "C17" => Some(Box::new(mon_c17::C17)),
+        "C18" => Some(Box::new(mon_c18::C18)),
         _ => None,
     }
 }
@@ -119,7 +125,15 @@ fn main() {
             let _keep = silence_stdio();
             let idx: u64 = args[3].parse().unwrap();
             let cfg = mon_c01::cfg_c01();
-            let p = cgen::gen_program(&args[2], idx, &cfg);
+            let p = if corpus::KINDS.contains(&args[2].as_str()) {
+                let (mut p, _) = corpus::corpus_program(&args[2], idx);
+                for v in p.vars.iter_mut() {
+                    v.mem = cmodel::MemClass::Zp;
+                }
+                p
+            } else {
+                cgen::gen_program(&args[2], idx, &cfg)
+            };
             let tag = args[2].clone();
             let lv: u8 = std::env::var("REDUCE_LEVEL").ok().and_then(|s| s.parse().ok()).unwrap_or(0);
             let bad = |q: &cmodel::Program| -> bool {
